@@ -39,3 +39,74 @@ Example c19_example :
   lstrip_go (layout ps2) = lstrip_go (layout ps1) /\
   length (fst (lstrip_go (layout ps2))) = 4%nat.
 Proof. vm_compute. repeat split; reflexivity. Qed.
+
+(* ---- parser part (coq/Parse): redundant parentheses, trailing commas, precedence and associativity.
+   `prints d e ts`: ts is a token rendering of expression e for a position of precedence depth d in which any
+   sub-expression may carry any number of redundant parentheses and call argument lists may end in a comma
+   (Parse/ParserPrint.v).  Fragment: identifiers, literals, unary/binary operators, calls, indexing, member
+   access, parentheses; type constructors / bitcast (template lists) are outside these theorems. *)
+From Coq Require Import String.
+Require Import Naga.Parse.Ast Naga.Parse.ParserModel Naga.Parse.ParserPrint.
+Open Scope string_scope.
+Open Scope list_scope.
+
+(* every rendering of e is parsed to exactly e, whatever follows it (a token that cannot continue an expression) *)
+Theorem c19_every_rendering_parses_to_its_ast : forall N er inf e ts rest,
+  prints 0 e ts -> follow 0 rest -> (List.length (ts ++ rest) <= N)%nat ->
+  expression (st N er inf (ts ++ rest)) = Ok e (st N er inf rest).
+Proof. exact parse_prints. Qed.
+Print Assumptions c19_every_rendering_parses_to_its_ast.
+
+(* a rendering of any depth wrapped in ( ) is a rendering for every depth: parentheses may be added anywhere *)
+Theorem c19_parentheses_allowed_anywhere : forall d d' e ts lp rp,
+  prints d e ts -> (d <= 11)%nat -> (d' <= 11)%nat -> tkind lp = TkLeftParen -> tkind rp = TkRightParen ->
+  prints d' e (lp :: ts ++ [rp]).
+Proof. exact prints_wrap. Qed.
+Print Assumptions c19_parentheses_allowed_anywhere.
+
+(* `e` and `( e )` give the same AST (the AST has no parenthesis node) *)
+Theorem c19_redundant_parens_same_ast : forall N er inf e ts rest lp rp,
+  prints 0 e ts -> follow 0 rest -> tkind lp = TkLeftParen -> tkind rp = TkRightParen ->
+  (List.length (lp :: ts ++ rp :: rest) <= N)%nat ->
+  expression (st N er inf (ts ++ rest)) = Ok e (st N er inf rest) /\
+  expression (st N er inf (lp :: ts ++ rp :: rest)) = Ok e (st N er inf rest).
+Proof. exact redundant_parens_same_ast. Qed.
+Print Assumptions c19_redundant_parens_same_ast.
+
+(* `f(a1, ..., an)` and `f(a1, ..., an,)` give the same AST *)
+Theorem c19_trailing_comma_same_ast : forall N er inf fid lp rp c f args tas rest,
+  is_ident fid = true -> tlex fid = f -> String.eqb f "bitcast" = false ->
+  tkind lp = TkLeftParen -> tkind rp = TkRightParen -> tkind c = TkComma ->
+  Forall2 (prints 0) args tas -> args <> [] -> follow 0 rest ->
+  (List.length (fid :: lp :: join c tas ++ c :: rp :: rest) <= N)%nat ->
+  expression (st N er inf (fid :: lp :: join c tas ++ rp :: rest)) = Ok (ECall f args) (st N er inf rest) /\
+  expression (st N er inf (fid :: lp :: join c tas ++ c :: rp :: rest)) = Ok (ECall f args) (st N er inf rest).
+Proof. exact trailing_comma_same_ast. Qed.
+Print Assumptions c19_trailing_comma_same_ast.
+
+(* print/parse round trip: `render` writes parentheses exactly where the depth of the position exceeds the
+   precedence of the sub-expression (left operands at their own level, right operands one level tighter); the parser
+   recovers the tree.  So precedence and associativity of the parser are those of the level table. *)
+Theorem c19_parse_render_round_trip : forall N er inf e rest,
+  wf_expr e -> follow 0 rest -> (List.length (render 0 e ++ rest) <= N)%nat ->
+  expression (st N er inf (render 0 e ++ rest)) = Ok e (st N er inf rest).
+Proof. exact parse_render. Qed.
+Print Assumptions c19_parse_render_round_trip.
+
+(* the precedence chain logicalOr ... multiplicative of parser.go is the generic chain over the level table *)
+Theorem c19_precedence_chain_is_level_table : forall E T TB s, logicalOr E T TB s = lv 10 0 (unary E T TB) s.
+Proof. exact logicalOr_lv. Qed.
+Print Assumptions c19_precedence_chain_is_level_table.
+
+(* non-vacuity: (a + b) * -c[0] : the printer parenthesises the sum and nothing else; a - (b - c) keeps its parentheses *)
+Example c19_render_example :
+  let a := EIdent "a" in let b := EIdent "b" in let c := EIdent "c" in
+  let e1 := EBinary (EBinary a TkPlus b) TkStar (EUnary TkMinus (EIndex c (ELit TkIntLiteral "0"))) in
+  let e2 := EBinary a TkMinus (EBinary b TkMinus c) in
+  let e3 := EBinary (EBinary a TkMinus b) TkMinus c in
+  wf_expr e1 /\ wf_expr e2 /\
+  map tkind (render 0 e1) = [TkLeftParen; TkIdent; TkPlus; TkIdent; TkRightParen; TkStar; TkMinus; TkIdent; TkLeftBracket; TkIntLiteral; TkRightBracket] /\
+  map tkind (render 0 e2) = [TkIdent; TkMinus; TkLeftParen; TkIdent; TkMinus; TkIdent; TkRightParen] /\
+  map tkind (render 0 e3) = [TkIdent; TkMinus; TkIdent; TkMinus; TkIdent] /\
+  expression (st 20 [] false (render 0 e1 ++ [mktoken TkSemicolon ";"])) = Ok e1 (st 20 [] false [mktoken TkSemicolon ";"]).
+Proof. vm_compute. repeat split; try reflexivity; try discriminate; auto. Qed.
